@@ -307,6 +307,108 @@ func runC01(c *Ctx) {
 	rep.Count("signatures_with_distinct_r", int64(len(seenR)))
 	rep.Count("signatures_with_distinct_nonce", int64(len(seenK)))
 
+	// ---- the default randomness (nil reader): long series of signatures in one process — every signature is the standard
+	// pair for the nonce it implies, and no nonce or r ever repeats, within a series or across keys
+	{
+		seenK, seenR := map[string]string{}, map[string]string{}
+		for ki := 0; ki < 3 && ki < len(keys); ki++ {
+			key := keys[len(keys)-1-ki]
+			msg := []byte("one message signed many times")
+			for i := 0; i < c.Q(120, 2000); i++ {
+				var R, S *big.Int
+				var err error
+				tag := fmt.Sprintf("key%d/signature%d", ki, i)
+				w := map[string]interface{}{"d": key.d.Text(16), "series_index": i, "reader": "nil (library default)"}
+				if pi := mon.Guard(func() {
+					if i%2 == 0 {
+						R, S, err = sm2.Sm2Sign(key.priv(), msg, nil, nil)
+					} else {
+						var der []byte
+						der, err = key.priv().Sign(nil, msg, nil)
+						if err == nil {
+							var ok bool
+							if R, S, ok = strictDERSig(der); !ok {
+								err = fmt.Errorf("not strict DER: %x", der)
+							}
+						}
+					}
+				}); pi != nil {
+					rep.Violation("C01/default-randomness/panic/"+pi.Func, pi.Value, w)
+					break
+				}
+				if err != nil {
+					rep.Violation("C01/default-randomness/sign-error", err.Error(), w)
+					break
+				}
+				kp := ref.RecoverK(key.d, R, S)
+				if r3, s3, ok := ref.SignWithK(key.d, kp, key.x, key.y, ref.DefaultUID, msg); !ok || r3.Cmp(R) != 0 || s3.Cmp(S) != 0 {
+					rep.Violation("C01/default-randomness/not-the-standard-pair", "", w)
+				}
+				if prev, dup := seenK[kp.Text(16)]; dup {
+					rep.Violation("C01/default-randomness/nonce-repeated", prev+" and "+tag+" used the same nonce", w)
+					break
+				}
+				seenK[kp.Text(16)] = tag
+				if prev, dup := seenR[R.Text(16)]; dup {
+					rep.Violation("C01/default-randomness/r-repeated", prev+" and "+tag, w)
+					break
+				}
+				seenR[R.Text(16)] = tag
+			}
+			rep.Eval(fmt.Sprintf("default-randomness/series/%s", key.cls))
+		}
+		rep.Count("signatures_with_default_randomness", int64(len(seenK)))
+	}
+
+	// ---- the digest-taking verifier with digests in every length the library itself produces: PublicKey.Sm3Digest returns
+	// e without leading zero bytes, so for one message in 256 the digest has 31 bytes (one in 65536: 30)
+	{
+		rd := c.Rng("shortdigest")
+		key := keys[0]
+		found := 0
+		for i := 0; i < 200000 && found < c.Q(6, 40); i++ {
+			msg := rd.Bytes(20)
+			e := ref.E(key.x, key.y, ref.DefaultUID, msg)
+			if e.BitLen() > 248 {
+				continue
+			}
+			found++
+			k := new(big.Int).SetBytes(rd.Bytes(31))
+			k.Add(k, big.NewInt(1))
+			R, S, ok := ref.SignWithK(key.d, k, key.x, key.y, ref.DefaultUID, msg)
+			if !ok {
+				continue
+			}
+			w := map[string]interface{}{"d": key.d.Text(16), "msg": mon.Hex(msg), "e": e.Text(16), "r": R.Text(16), "s": S.Text(16)}
+			var libDigest []byte
+			var derr error
+			var vPad, vMin, vLib, vMsg bool
+			if pi := mon.Guard(func() {
+				libDigest, derr = key.pub().Sm3Digest(msg, nil)
+				vPad = sm2.Verify(key.pub(), ref.Pad32(e), R, S)
+				vMin = sm2.Verify(key.pub(), e.Bytes(), R, S)
+				if derr == nil {
+					vLib = sm2.Verify(key.pub(), libDigest, R, S)
+				}
+				vMsg = sm2.Sm2Verify(key.pub(), msg, nil, R, S)
+			}); pi != nil {
+				rep.Violation("C01/Verify(hash)/panic/"+pi.Func+"/short-digest", pi.Value, w)
+				continue
+			}
+			if derr != nil || new(big.Int).SetBytes(libDigest).Cmp(e) != 0 {
+				rep.Violation("C01/Sm3Digest/not-the-standard-e", fmt.Sprintf("%v %x", derr, libDigest), w)
+			}
+			if !vMsg || !vPad {
+				rep.Violation("C01/Sm2Verify/rejects-valid/short-e", fmt.Sprintf("message form %v, 32-byte digest %v", vMsg, vPad), w)
+			}
+			if !vMin || (derr == nil && !vLib) {
+				rep.Violation("C01/Verify(hash)/rejects-valid/digest-shorter-than-32-bytes", fmt.Sprintf("minimal-length digest (%d bytes) %v, the library's own Sm3Digest output (%d bytes) %v", len(e.Bytes()), vMin, len(libDigest), vLib), w)
+			}
+			rep.Eval(fmt.Sprintf("verify/digest-with-%d-significant-bytes", len(e.Bytes())))
+		}
+		rep.Count("messages_whose_e_has_leading_zero_bytes", int64(found))
+	}
+
 	// ---- histories on one key with caller buffers edited in place between calls (run serially, nothing in between):
 	// an answer must depend on the *contents* of message and ID at the time of the call, not on what an earlier call saw
 	{
